@@ -10,7 +10,7 @@ Lemma stable_newvar_post name ty cst owner id : stable (newvar_post name ty cst 
 Proof. intros s s' H [p X]. exists p. eapply stable_cellmeta; eauto. Qed.
 
 Ltac stab2 := repeat first [ assumption | apply stable_retok | apply stable_impl | apply stable_and | apply stable_true | apply stable_pure | apply stable_cellmeta | apply stable_ctxkind | apply stable_wr
-                           | apply stable_valok | apply stable_nonconst | apply stable_ownrec | apply stable_resok | apply stable_newvar_post
+                           | apply stable_valok | apply stable_nonconst | apply stable_ownrec | apply stable_resok | apply stable_fits | apply stable_newvar_post
                            | (apply stable_Forall; intros ?) | (apply stable_Forall2; intros ? ?) ].
 
 (* ------------------------------------------------------------------ Control.v *)
@@ -64,7 +64,7 @@ Proof.
   eapply tr_bind; [stab|apply trT_cond_bool; [exact Hc|stab]|]. intros v. destruct v; [eapply tr_true; apply tr_ret|apply IH; stab].
 Qed.
 (* FOR: the iterator was found writable before the loop; that stays true while the body runs *)
-Lemma tr_for lim k t c it stepv stop br : trT br -> forall (P : st -> Prop), stable P -> (forall s, P s -> wr it s) ->
+Lemma tr_for lim k t c it stepv stop br : trT br -> forall (P : st -> Prop), stable P -> (forall s, P s -> wr it s /\ fits it (PInt 0) s) ->
   tr P (for_loop lim k t c it stepv stop br) (fun _ _ => True).
 Proof.
   intros Hb. induction k as [|k IH]; intros P SP HW; cbn [for_loop]; [apply tr_failm|].
@@ -74,7 +74,7 @@ Proof.
   eapply tr_bind; [stab|apply trT_run_body; [exact Hb|stab]|]. intros g. destruct (negb g); [eapply tr_true; apply tr_ret|].
   eapply tr_bind; [stab|apply tr_ro; apply ro_get_cell|]. intros cl'. destruct (c_val cl'); try apply tr_failm.
   eapply tr_bind; [stab| |].
-  - apply tr_set_cell_val. intros s H. split; [apply HW; tauto|apply valok_nonrec; intros; discriminate].
+  - apply tr_set_cell_val. intros s H. assert (HPs : P s) by tauto. split; [apply (HW s HPs)|]. split; [apply valok_nonrec; intros; discriminate|exact (proj2 (HW s HPs))].
   - intros u2. apply IH; [stab|]. intros s H. apply HW. tauto.
 Qed.
 Lemma trT_eval_bounds ev c bs : (forall n, trT (ev n)) -> forall total, trT (eval_bounds ev c bs total).
@@ -131,7 +131,7 @@ Proof.
   eapply tr_bind; [stab|apply trT_run_body; [exact Hb|stab]|]. intros g. destruct (negb g); [apply tr_ret_none|].
   eapply tr_bind; [stab|apply trT_cond_bool; [exact Hc|stab]|]. intros v. destruct v; [apply tr_ret_none|apply IH; stab].
 Qed.
-Lemma trR_for lim k t c it stepv stop br : trT br -> forall (P : st -> Prop), stable P -> (forall s, P s -> wr it s) ->
+Lemma trR_for lim k t c it stepv stop br : trT br -> forall (P : st -> Prop), stable P -> (forall s, P s -> wr it s /\ fits it (PInt 0) s) ->
   tr P (for_loop lim k t c it stepv stop br) (fun r s => resok r s).
 Proof.
   intros Hb. induction k as [|k IH]; intros P SP HW; cbn [for_loop]; [apply tr_failm|].
@@ -141,7 +141,7 @@ Proof.
   eapply tr_bind; [stab|apply trT_run_body; [exact Hb|stab]|]. intros g. destruct (negb g); [apply tr_ret_none|].
   eapply tr_bind; [stab|apply tr_ro; apply ro_get_cell|]. intros cl'. destruct (c_val cl'); try apply tr_failm.
   eapply tr_bind; [stab| |].
-  - apply tr_set_cell_val. intros s H. split; [apply HW; tauto|apply valok_nonrec; intros; discriminate].
+  - apply tr_set_cell_val. intros s H. assert (HPs : P s) by tauto. split; [apply (HW s HPs)|]. split; [apply valok_nonrec; intros; discriminate|exact (proj2 (HW s HPs))].
   - intros u2. apply IH; [stab|]. intros s H. apply HW. tauto.
 Qed.
 
@@ -180,7 +180,8 @@ Lemma tr_new_var_body (P : st -> Prop) name ty cst owner : stable P -> tr P (new
 Proof.
   intros SP. unfold new_var_body. destruct (default_prim ty) as [p|] eqn:Ed.
   - apply tr_alloc_cell; [exact SP| |].
-    + intros s _. cbn [c_val]. apply valok_nonrec. intros tn c E. subst p. destruct ty as [k n]. destruct k, n; cbn in Ed; discriminate.
+    + intros s _. cbn [c_val c_type]. split; [apply valok_nonrec; intros tn c E; subst p; destruct ty as [k n]; destruct k, n; cbn in Ed; discriminate|].
+      destruct ty as [k n]. destruct k, n; cbn in Ed; inversion Ed; reflexivity.
     + intros id. eapply tr_post; [apply tr_ret|]. intros a s [-> [_ Hm]]. exists p. exact Hm.
   - destruct (dk ty) eqn:Ek; try apply tr_failm. destruct (dname ty) as [tn|] eqn:En; try apply tr_failm.
     eapply tr_bind; [exact SP|apply tr_new_ctx; exact SP|]. intros rc.
@@ -188,7 +189,7 @@ Proof.
     destruct dd as [body|]; [|apply tr_failm].
     eapply tr_bind; [stab2|apply Hb; stab2|]. intros u.
     apply tr_alloc_cell; [stab2| |].
-    + intros s [[[_ Hk] _] _]. cbn [c_val]. intros tn' c' E. inversion E; subst. exact Hk.
+    + intros s [[[_ Hk] _] _]. cbn [c_val c_type]. split; [intros tn' c' E; inversion E; subst; exact Hk|]. cbn. first [rewrite Ek; reflexivity|symmetry; exact Ek|reflexivity].
     + intros id. eapply tr_post; [apply tr_ret|]. intros a s [-> [_ Hm]]. exists (PRec tn rc). exact Hm.
 Qed.
 
@@ -318,9 +319,9 @@ Proof.
   unfold implicit_cast, as_int, as_str, as_char, as_payload. hnt ltac:(first [apply IH | hknown]).
 Qed.
 
-Lemma tr_ret_prim (P : st -> Prop) k p : is_primitive p = true -> tr P (ret (res_of k p)) (fun r s => resok r s).
+Lemma tr_ret_prim (P : st -> Prop) k p : is_primitive p = true -> payload_kind p = k -> tr P (ret (res_of k p)) (fun r s => resok r s).
 Proof.
-  intros Hprim. eapply tr_post; [apply tr_ret|]. intros a s [-> _] q E. cbn in E. inversion E; subst q. apply valok_nonrec. intros tn c ->. discriminate Hprim.
+  intros Hprim Hk. eapply tr_post; [apply tr_ret|]. intros a s [-> _] q E. cbn in E. inversion E; subst q. split; [|exact Hk]. apply valok_nonrec. intros tn c ->. discriminate Hprim.
 Qed.
 Lemma tr_run_builtin (P : st -> Prop) n fc args : stable P -> tr P (run_builtin n fc args) (fun r s => resok r s).
 Proof.
@@ -361,6 +362,6 @@ Proof.
     eapply tr_bind; [stab2|apply tr_get_ctx|]. intros fx.
     destruct (x_retval fx) as [r|] eqn:Er; [|apply tr_rt_error].
     eapply tr_bind; [stab2|apply tr_upd_ctx_keepvars; [stab2|intros k; repeat split]|]. intros u6.
-    eapply tr_post; [apply tr_ret|]. intros a s [-> [[_ [_ [_ HR]]] _]] p E tn k Ep. subst p. eapply HR; eauto.
+    eapply tr_post; [apply tr_ret|]. intros a s [-> [[_ [_ [_ HR]]] _]]. apply HR. first [exact Er|reflexivity].
 Qed.
 End Level.
